@@ -119,7 +119,7 @@ def check_props(prop_file, timeout=900):
             assumptions[n] = []
         else:
             ax = re.findall(r"^([A-Za-z_][A-Za-z0-9_.']*)\s*:", b, re.M)
-            assumptions[n] = sorted(set(a for a in ax if a != "Axioms"))
+            assumptions[n] = sorted(set(a for a in ax if a not in ("Axioms", "Warning", "Error")))
     return dict(theorems=thms, assumptions=assumptions, log=out, ok=(rc == 0), fail_line=fail_line)
 
 def _big_stack():
